@@ -68,3 +68,13 @@ chk('C19', 'model_checking',
     'Normalisation (id renumbering, sorting of wire-declaration runs) is the only tolerance; three circuit kinds; depth bound H (4 quick, 6 thorough).',
     'bounded exhaustive history enumeration on the implementation with a differential (canonical / twin) oracle',
     'DESIGN.md 4/C19')
+chk('C02', 'model_checking',
+    'Programs = every behavioural library block the generator transpiles plus a generated family of behavioural classes covering the statement\'s subset (each operator in each template position, if/elif/else nests, match/case incl. guards and or-patterns, ternaries, and/or/not, locals, integer state, constructor argument, parameter; clock and propagate variants). For each: refusal is accepted; returned text must parse/elaborate; the product (py4hw state x Verilog-interpreter state) is explored breadth-first with all input vectors per step, comparing outputs and same-named state variables after every cycle; out-of-domain transitions pruned by an interpreter of the Python body.',
+    'Verilog engine trusted as in C01; program family bounded by the grammar depth (1 quick, 2 thorough) and 1-4 width combinations; graphs whose state variable grows without bound are cut at depth 64 / the state cap and reported as capped.',
+    'bounded exhaustive program enumeration + explicit-state product model checking (translation validation by exploration)',
+    'DESIGN.md 3, 4/C02')
+chk('C16', 'model_checking',
+    'Explicit-state BFS of the product (live Axi2Reg / Reg2Axi / composed pair with VitisKernelFSM x reference protocol monitor written from the statement) with every control/handshake/data input vector per step under the statement\'s environment assumption (done only after a completed transfer, enforced as an enabling condition), to closure; every clause of the statement is an invariant of the monitor; schedule classes named in the quantifier must all be exercised (vacuity guard).',
+    'Monitors in mc/refmodels/proto_axi.py trusted; cycle alignment taken from the docstrings, freedoms the statement leaves open are listed in the check\'s ASSUMPTIONS; small data alphabets (data is only moved).',
+    'explicit-state model checking of the implementation against a reference protocol monitor (product BFS, all inputs per step)',
+    'DESIGN.md 4/C16')
